@@ -201,7 +201,7 @@ func checkAllocs(c AllocCase) error {
 }
 
 func TestC17(t *testing.T) {
-	h := start(t, "C17", "valid vectors of every version (C06 generator: all group layouts / subsets of optional metrics / explicit X / all five U spellings / shuffled v3 order); on each, testing.AllocsPerRun(20) around ParseVector (<=1), Vector() (=1), Get and Set on a generated known metric with a legal and an illegal value (0), every scoring method (0), Rating in and out of range (0), Nomenclature (0); minimum of up to 4 measurements on a miss; own process, no race detector; non-trivial = the vector has at least one optional metric present; distinct by (vector, metric)")
+	h := start(t, "C17", "valid vectors of every version (C06 generator: all group layouts / subsets of optional metrics / explicit X / all five U spellings / shuffled v3 order); on each, testing.AllocsPerRun(20) around ParseVector (<=1), Vector() (=1), Get and Set on a generated known metric with a legal and an illegal value (0), every scoring method (0), Rating in and out of range (0), Nomenclature (0), and ParseVector again when every call follows a rejected near-miss of the vector (<=1 for the successful call); exhaustively every optional metric x value alone and with all other optional metrics defined; minimum of up to 4 measurements on a miss; own process, no race detector; non-trivial = the vector has at least one optional metric present; distinct by (vector, metric)")
 	h.R.Assume("measured on the default toolchain (go1.23.5 linux/amd64) in steady state; Set on an unknown metric (allocates its typed error) is outside the statement and not measured")
 	n := env.Scale(2500, 40000)
 	present := make([]map[string]bool, 4)
